@@ -146,7 +146,41 @@ func xr(r *core.Rand, o Opts) *rtcp.ExtendedReport {
 	for i := 0; i < n; i++ {
 		x.Reports = append(x.Reports, XRBlock(r, XRKind(r.Intn(int(NumXRKinds))), kf))
 	}
+	if r.Chance(1, 6) {
+		PrefillXRHeaders(r, x)
+	}
 	return x
+}
+
+// PrefillXRHeaders puts arbitrary content into the XRHeader convenience field of every block
+// of a known kind (as an earlier Marshal or Unmarshal of a block that has since been modified
+// leaves it, or as a careless caller fills it): Marshal derives that field from the block's
+// own fields and must not be influenced by what it held. For unknown blocks BlockType and
+// TypeSpecific are the value; only the derived BlockLength is arbitrary.
+func PrefillXRHeaders(r *core.Rand, x *rtcp.ExtendedReport) {
+	h := func() rtcp.XRHeader {
+		return rtcp.XRHeader{BlockType: rtcp.BlockTypeType(r.Pick(0, 1, 2, 3, 4, 5, 6, 7, 8, 255)), TypeSpecific: rtcp.TypeSpecificField(r.Pick(0, 0xFF, 0xF8, 0x07, 0x18, 0x80, 0x40, 0x20, 0x10, 0x08, int(r.U8()))), BlockLength: uint16(r.Pick(0, 1, 3, 6, 65535, int(r.U16())))}
+	}
+	for _, b := range x.Reports {
+		switch v := b.(type) {
+		case *rtcp.LossRLEReportBlock:
+			v.XRHeader = h()
+		case *rtcp.DuplicateRLEReportBlock:
+			v.XRHeader = h()
+		case *rtcp.PacketReceiptTimesReportBlock:
+			v.XRHeader = h()
+		case *rtcp.ReceiverReferenceTimeReportBlock:
+			v.XRHeader = h()
+		case *rtcp.DLRRReportBlock:
+			v.XRHeader = h()
+		case *rtcp.StatisticsSummaryReportBlock:
+			v.XRHeader = h()
+		case *rtcp.VoIPMetricsReportBlock:
+			v.XRHeader = h()
+		case *rtcp.UnknownReportBlock:
+			v.XRHeader.BlockLength = h().BlockLength
+		}
+	}
 }
 
 // IsKF5 reports whether an XR value has a block whose wire size is not a multiple of 4.
